@@ -26,10 +26,30 @@ type scratch struct {
 	buildS float64
 }
 
-const (
-	repoDir  = "/repo"
-	verifDir = "/verif"
+// verifDir is where bin/, sim/ and known_findings.json live: /verif, or the
+// snapshot directory of a background run (VERIF_HOME).
+var verifDir = "/verif"
+
+// repoDir is /repo for every registered command. The self-tests point it at a
+// scratch copy carrying a deliberate property-breaking change (VERIF_REPO) and
+// redirect evidence and replay files away from /verif (VERIF_OUTDIR).
+var (
+	repoDir = "/repo"
+	outDir  = "/verif"
 )
+
+func init() {
+	if h := os.Getenv("VERIF_HOME"); h != "" {
+		verifDir = h
+		outDir = h
+	}
+	if r := os.Getenv("VERIF_REPO"); r != "" {
+		repoDir = r
+	}
+	if o := os.Getenv("VERIF_OUTDIR"); o != "" {
+		outDir = o
+	}
+}
 
 func goEnv() []string {
 	env := os.Environ()
